@@ -400,7 +400,16 @@ class Reader:
                 except Unknown:
                     first = self.repo.actual_function('_create_pairs_row') in outer
                 (st if first else sec).append((e, ctx))
-        return st, sec
+        def once(xs):
+            # a comprehension over a generator call evaluates its domain for the binder and again for the chain: one call site
+            seen, out = set(), []
+            for e, ctx in xs:
+                k = (e.loc, tuple(e.args), tuple(c.loc for c, _ in ctx if c.kind == 'call'))
+                if k not in seen:
+                    seen.add(k)
+                    out.append((e, ctx))
+            return out
+        return once(st), once(sec)
 
 
 def own_id_ok(R, term, want, wl, wh, at_effect):
